@@ -32,6 +32,8 @@ func (i *IRCServer) Marshal(lastIncludedIndex uint64) ([]byte, error) {
 	defer i.sessionsMu.RUnlock()
 	i.ConfigMu.RLock()
 	defer i.ConfigMu.RUnlock()
+	i.lastProcessedMu.RLock()
+	defer i.lastProcessedMu.RUnlock()
 	sessions := make([]*pb.Snapshot_Session, 0, len(i.sessions))
 	for id, session := range i.sessions {
 		channels := make([]string, 0, len(session.Channels))
@@ -180,6 +182,21 @@ func (i *IRCServer) Unmarshal(data []byte) (uint64, error) {
 	if err := proto.Unmarshal(data, &snapshot); err != nil {
 		return 0, err
 	}
+	// The state is restored in two steps, each under its own lock (never
+	// both at once), because FSM.Restore hands the IRCServer to the HTTP
+	// handlers before calling Unmarshal.
+	if err := i.unmarshalSessions(&snapshot); err != nil {
+		return 0, err
+	}
+	if err := i.unmarshalConfig(&snapshot); err != nil {
+		return 0, err
+	}
+	return snapshot.LastIncludedIndex, nil
+}
+
+func (i *IRCServer) unmarshalSessions(snapshot *pb.Snapshot) error {
+	i.sessionsMu.Lock()
+	defer i.sessionsMu.Unlock()
 
 	for _, s := range snapshot.Sessions {
 		channels := make(map[lcChan]bool, len(s.Channels))
@@ -264,7 +281,7 @@ func (i *IRCServer) Unmarshal(data []byte) (uint64, error) {
 		for idx, ban := range c.Bans {
 			re, err := regexp.Compile(ban.Regexp)
 			if err != nil {
-				return 0, err
+				return err
 			}
 			bans[idx] = banPattern{
 				pattern: ban.Pattern,
@@ -286,7 +303,7 @@ func (i *IRCServer) Unmarshal(data []byte) (uint64, error) {
 	for nickName, s := range snapshot.Svsholds {
 		duration, err := time.ParseDuration(s.Duration)
 		if err != nil {
-			return 0, err
+			return err
 		}
 		i.svsholds[NickToLower(nickName)] = svshold{
 			added:    timestampToTime(s.Added),
@@ -294,10 +311,17 @@ func (i *IRCServer) Unmarshal(data []byte) (uint64, error) {
 			reason:   s.Reason,
 		}
 	}
-	i.lastProcessed = robust.Id{
+	i.SetLastProcessed(robust.Id{
 		Id:    snapshot.LastProcessed.Id,
 		Reply: snapshot.LastProcessed.Reply,
-	}
+	})
+	return nil
+}
+
+func (i *IRCServer) unmarshalConfig(snapshot *pb.Snapshot) error {
+	i.ConfigMu.Lock()
+	defer i.ConfigMu.Unlock()
+
 	operators := make([]config.IRCOp, len(snapshot.Config.Irc.Operators))
 	for idx, operator := range snapshot.Config.Irc.Operators {
 		operators[idx] = config.IRCOp{
@@ -313,15 +337,15 @@ func (i *IRCServer) Unmarshal(data []byte) (uint64, error) {
 	}
 	sessionExpiration, err := time.ParseDuration(snapshot.Config.SessionExpiration)
 	if err != nil {
-		return 0, err
+		return err
 	}
 	postMessageCooloff, err := time.ParseDuration(snapshot.Config.PostMessageCooloff)
 	if err != nil {
-		return 0, err
+		return err
 	}
 	hmacSecret, err := hex.DecodeString(snapshot.Config.CaptchaHmacSecret)
 	if err != nil {
-		return 0, err
+		return err
 	}
 	i.Config = config.Network{
 		Revision: snapshot.Config.Revision,
@@ -342,5 +366,5 @@ func (i *IRCServer) Unmarshal(data []byte) (uint64, error) {
 	if i.Config.Banned == nil {
 		i.Config.Banned = make(map[string]string)
 	}
-	return snapshot.LastIncludedIndex, nil
+	return nil
 }
